@@ -11,11 +11,11 @@ Arguments N.eqb : simpl never.
 Arguments dedup_sort : simpl never.
 Arguments len : simpl never.
 
-Lemma lock_rpc_agg k a assigned rv ce loie f o s :
+Lemma lock_rpc_core_agg k a assigned rv ce loie f o s :
   agg s = Some a -> Inv s -> book_ok s -> fu s = f -> findk k (cur a) = None ->
-  Inv (lock_rpc [k] [k] assigned rv ce loie f o s).
+  Inv (lock_rpc_core [k] [k] assigned rv ce loie f o s).
 Proof.
-  intros Ha (HI & HL & HC) B Hf Hnc. unfold lock_rpc.
+  intros Ha (HI & HL & HC) B Hf Hnc. unfold lock_rpc_core.
   assert (Hw : eff_lwc s [k] o = lo_lwc o) by (unfold eff_lwc; rewrite Ha; auto). rewrite Hw.
   set (w := lo_lwc o). set (lf := N.max f w).
   set (st1 := fold_right (put_pess lf) (store s) (eff_locked [k] loie o)).
@@ -103,6 +103,11 @@ Proof.
       split; [rewrite H1; auto|]. destruct (snd p) as [f'|]; [|discriminate]. exists f'. split; auto.
       apply N.leb_le in H2. rewrite Efu, Hf. exact H2.
 Qed.
+
+Lemma lock_rpc_agg k a assigned rv ce loie f o s :
+  agg s = Some a -> Inv s -> book_ok s -> fu s = f -> findk k (cur a) = None ->
+  Inv (lock_rpc [k] [k] assigned rv ce loie f o s).
+Proof. intros. unfold lock_rpc. apply Inv_ka. eapply lock_rpc_core_agg; eauto. Qed.
 
 (* ---- filterAggressiveLockedKeys on the single key of an aggressive-mode call ---- *)
 Lemma filter_agg_single a rv ce f ex cs k :
